@@ -18,6 +18,7 @@ import GooseVerif.GL.Lex
 import GooseVerif.Model.Sanitize
 import GooseVerif.Lemmas.Sanitize
 import GooseVerif.Lemmas.SanitizeQ
+import GooseVerif.Props.C05Paren
 import GooseVerif.Gen.PrinterFacts
 import GooseVerif.Expected.PrinterFacts
 
